@@ -124,7 +124,7 @@ theorem stepN_inv_own {s : St} (h : Inv s) {j : Nat} {n : Notifier} (hj : s.ntf[
       · simp only [hwe, if_true]
         refine inv_notifier_own h hj s.lock (s.epoch + 1) s.conds (Or.inl ⟨rfl, by rw [hpc]; rfl⟩) rfl rfl
           (hnl _ (Or.inl rfl) (by simp) (by simp)) (Or.inl rfl)
-          (dek_mono h hj (pending_lose rfl rfl (Or.inl ⟨rfl, fun _ => List.isEmpty_iff.mp hwe, (fun c e => by rw [hkind] at e; cases e),
+          (dek_mono h hj (pending_lose rfl rfl (Or.inl ⟨rfl, fun _ => List.isEmpty_iff.mp hwe, (fun e => by rw [hkind] at e; cases e),
             (fun c e => by rw [hkind] at e; cases e)⟩)))
       · simp only [hwe]
         refine inv_notifier_own h hj s.lock (s.epoch + 1) s.conds (Or.inl ⟨rfl, by rw [hpc]; rfl⟩) rfl rfl
@@ -136,7 +136,7 @@ theorem stepN_inv_own {s : St} (h : Inv s) {j : Nat} {n : Notifier} (hj : s.ntf[
       · simp only [hwe, if_true]
         refine inv_notifier_own h hj s.lock (s.epoch + 1) s.conds (Or.inl ⟨rfl, by rw [hpc]; rfl⟩) rfl rfl
           (hnl _ (Or.inl rfl) (by simp) (by simp)) (Or.inl rfl)
-          (dek_mono h hj (pending_lose rfl rfl (Or.inl ⟨rfl, fun _ => List.isEmpty_iff.mp hwe, (fun c e => by rw [hkind] at e; cases e),
+          (dek_mono h hj (pending_lose rfl rfl (Or.inl ⟨rfl, fun _ => List.isEmpty_iff.mp hwe, (fun e => by rw [hkind] at e; cases e),
             (fun c e => by rw [hkind] at e; cases e)⟩)))
       · simp only [hwe]
         refine inv_notifier_own h hj s.lock (s.epoch + 1) s.conds (Or.inl ⟨rfl, by rw [hpc]; rfl⟩) rfl rfl
@@ -150,12 +150,26 @@ theorem stepN_inv_own {s : St} (h : Inv s) {j : Nat} {n : Notifier} (hj : s.ntf[
         refine inv_notifier_own h hj s.lock (s.epoch + 1) s.conds (Or.inl ⟨rfl, by rw [hpc]; rfl⟩) rfl rfl
           (hnl _ (Or.inl rfl) (by simp) (by simp)) (Or.inl rfl)
           (dek_mono h hj (pending_lose rfl rfl (Or.inl ⟨rfl, (fun e => by rw [hkind] at e; rcases e with e | e <;> cases e),
-            (fun c' e => by rw [hkind] at e; cases e; exact hsp), (fun c' e => by rw [hkind] at e; cases e)⟩)))
+            (fun _ => by rw [hkind]; exact hsp), (fun c' e => by rw [hkind] at e; cases e)⟩)))
       | some x =>
         simp only [Option.isSome_some, if_true]
         refine inv_notifier_own h hj s.lock (s.epoch + 1) s.conds (Or.inl ⟨rfl, by rw [hpc]; rfl⟩) rfl rfl
           (hnl _ (Or.inr (Or.inr rfl)) (by simp) (fun _ => by rw [hkind]; simp)) (Or.inl rfl)
-          (dek_mono h hj (pending_lose rfl rfl (Or.inr (Or.inr (Or.inr (Or.inl ⟨Or.inl rfl, c, hkind⟩))))))
+          (dek_mono h hj (pending_lose rfl rfl (Or.inr (Or.inr (Or.inr (Or.inl ⟨Or.inl rfl, by rw [hkind]; rfl⟩))))))
+    | leq c =>
+      simp only [afterEpoch, hscan]
+      cases hsp : scanPick s (.leq c) with
+      | none =>
+        simp only [Option.isSome_none, Bool.false_eq_true, if_false]
+        refine inv_notifier_own h hj s.lock (s.epoch + 1) s.conds (Or.inl ⟨rfl, by rw [hpc]; rfl⟩) rfl rfl
+          (hnl _ (Or.inl rfl) (by simp) (by simp)) (Or.inl rfl)
+          (dek_mono h hj (pending_lose rfl rfl (Or.inl ⟨rfl, (fun e => by rw [hkind] at e; rcases e with e | e <;> cases e),
+            (fun _ => by rw [hkind]; exact hsp), (fun c' e => by rw [hkind] at e; cases e)⟩)))
+      | some x =>
+        simp only [Option.isSome_some, if_true]
+        refine inv_notifier_own h hj s.lock (s.epoch + 1) s.conds (Or.inl ⟨rfl, by rw [hpc]; rfl⟩) rfl rfl
+          (hnl _ (Or.inr (Or.inr rfl)) (by simp) (fun _ => by rw [hkind]; simp)) (Or.inl rfl)
+          (dek_mono h hj (pending_lose rfl rfl (Or.inr (Or.inr (Or.inr (Or.inl ⟨Or.inl rfl, by rw [hkind]; rfl⟩))))))
     | onec c =>
       simp only [afterEpoch, hscan]
       cases hsp : scanPick s (.onec c) with
@@ -164,7 +178,7 @@ theorem stepN_inv_own {s : St} (h : Inv s) {j : Nat} {n : Notifier} (hj : s.ntf[
         refine inv_notifier_own h hj s.lock (s.epoch + 1) s.conds (Or.inl ⟨rfl, by rw [hpc]; rfl⟩) rfl rfl
           (hnl _ (Or.inl rfl) (by simp) (by simp)) (Or.inl rfl)
           (dek_mono h hj (pending_lose rfl rfl (Or.inl ⟨rfl, (fun e => by rw [hkind] at e; rcases e with e | e <;> cases e),
-            (fun c' e => by rw [hkind] at e; cases e), (fun c' e => by rw [hkind] at e; cases e; exact hsp)⟩)))
+            (fun e => by rw [hkind] at e; cases e), (fun c' e => by rw [hkind] at e; cases e; exact hsp)⟩)))
       | some x =>
         simp only [Option.isSome_some, if_true]
         refine inv_notifier_own h hj s.lock (s.epoch + 1) s.conds (Or.inl ⟨rfl, by rw [hpc]; rfl⟩) rfl rfl
@@ -333,7 +347,7 @@ theorem stepN_inv_scan {s : St} (h : Inv s) {j : Nat} {n : Notifier} (hj : s.ntf
     · refine ⟨hm, fun e => absurd hunm e, ?_, ?_, fun e => absurd e hne, ?_, ?_, ?_⟩ <;> (intro e; simp at e)
     · refine dek_mono h hj (pending_lose rfl rfl (Or.inl ⟨rfl, ?_, ?_, ?_⟩))
       · intro hk'; have := hsc hpc; rcases hk' with hk' | hk' <;> simp [hk'] at this
-      · intro c hk'; rw [hk'] at hsp; exact hsp
+      · intro _; exact hsp
       · intro c hk'; rw [hk'] at hsp; exact hsp
   | some x =>
     simp only
@@ -380,7 +394,12 @@ theorem stepN_inv_scan {s : St} (h : Inv s) {j : Nat} {n : Notifier} (hj : s.ntf
           refine Or.inr (exists_pending_setN hj ?_ hpd)
           intro hp'
           exact pending_keep (n := n) (n' := { n with temp := n.temp ++ [x], pc := NPc.mark }) rfl rfl
-            (Or.inr (Or.inr (Or.inl ⟨Or.inr rfl, c, hkd⟩))) _ _ hp'
+            (Or.inr (Or.inr (Or.inl ⟨Or.inr rfl, by rw [hkd]; rfl⟩))) _ _ hp'
+        | leq c =>
+          refine Or.inr (exists_pending_setN hj ?_ hpd)
+          intro hp'
+          exact pending_keep (n := n) (n' := { n with temp := n.temp ++ [x], pc := NPc.mark }) rfl rfl
+            (Or.inr (Or.inr (Or.inl ⟨Or.inr rfl, by rw [hkd]; rfl⟩))) _ _ hp'
         | onec c0 =>
           -- notify_one(pred) stops after this node: by `Uniq` it is the only waiter with that context
           obtain ⟨j', m, hm, hpm⟩ := hpd
@@ -479,8 +498,8 @@ theorem stepN_inv_mark {s : St} (h : Inv s) {j : Nat} {n : Notifier} (hj : s.ntf
   -- the next program counter, by kind
   have hnxt : (afterMark s n = .mark ∧ n.marked + 1 < n.temp.length ∧ (n.kind = .all ∨ n.kind = .abort)) ∨
       (afterMark s n = .unlock ∧ n.temp.length ≤ n.marked + 1 ∧
-        ((n.kind = .all ∨ n.kind = .abort ∨ n.kind = .one ∨ ∃ c, n.kind = .onec c) ∨ ∃ c, n.kind = .ctx c ∧ scanPick s (.ctx c) = none)) ∨
-      (afterMark s n = .scan ∧ n.temp.length ≤ n.marked + 1 ∧ ∃ c, n.kind = .ctx c) := by
+        ((n.kind = .all ∨ n.kind = .abort ∨ n.kind = .one ∨ ∃ c, n.kind = .onec c) ∨ (n.kind.isPredAll = true ∧ scanPick s n.kind = none))) ∨
+      (afterMark s n = .scan ∧ n.temp.length ≤ n.marked + 1 ∧ n.kind.isPredAll = true) := by
     unfold afterMark
     cases hkd : n.kind with
     | all =>
@@ -515,8 +534,18 @@ theorem stepN_inv_mark {s : St} (h : Inv s) {j : Nat} {n : Notifier} (hj : s.ntf
         · exact h1
       simp only [afterEpoch]
       cases hsp : scanPick s (.ctx c) with
-      | none => simp [this, hsp]
-      | some y => simp [this]
+      | none => simp [this, NKind.isPredAll]
+      | some y => simp [this, NKind.isPredAll]
+    | leq c =>
+      have : n.temp.length ≤ n.marked + 1 := by
+        rcases hkk with h1 | h1 | h1
+        · rw [hkd] at h1; cases h1
+        · rw [hkd] at h1; cases h1
+        · exact h1
+      simp only [afterEpoch]
+      cases hsp : scanPick s (.leq c) with
+      | none => simp [this, NKind.isPredAll]
+      | some y => simp [this, NKind.isPredAll]
   generalize afterMark s n = nxt at hnxt
   refine inv_notifier_gen h hj s.waitset s.count (modS s x f).slp (modS_len s x f) ?_ ?_ h.nodup h.cnt (fun _ hy => hy) ?_ (Or.inl rfl) ?_ ?_
   · intro k sl' hk'
@@ -546,11 +575,11 @@ theorem stepN_inv_mark {s : St} (h : Inv s) {j : Nat} {n : Notifier} (hj : s.ntf
     · intro e; simp only at e; rcases hnxt with ⟨e', _⟩ | ⟨e', _⟩ | ⟨e', _⟩ <;> rw [e'] at e <;> cases e
     · intro e
       simp only at e
-      rcases hnxt with ⟨e', _⟩ | ⟨e', _⟩ | ⟨_, _, c, hc⟩
+      rcases hnxt with ⟨e', _⟩ | ⟨e', _⟩ | ⟨_, _, hc⟩
       · rw [e'] at e; cases e
       · rw [e'] at e; cases e
       · have : ({ n with marked := n.marked + 1, pc := nxt } : Notifier).kind = n.kind := rfl
-        rw [this, hc]; simp
+        rw [this]; constructor <;> (intro e2; rw [e2] at hc; cases hc)
   · -- sleepers
     intro k sl' hk'
     have hP : pend (s.setN j { n with marked := n.marked + 1, pc := nxt }) k = pend s k :=
@@ -570,7 +599,7 @@ theorem stepN_inv_mark {s : St} (h : Inv s) {j : Nat} {n : Notifier} (hj : s.ntf
     have hmono : ∀ c x, pendingFor n c x = true → pendingFor { n with marked := n.marked + 1, pc := nxt } c x = true ∨
         ∀ (i : Nat) (sl : Sleeper), s.slp[i]? = some sl → sl.ctx = x → i ∉ s.waitset := by
       intro c x hp'
-      rcases hnxt with ⟨_, _, hka⟩ | ⟨e, _, hka | ⟨c0, hc0, hsp⟩⟩ | ⟨e, _, c0, hc0⟩
+      rcases hnxt with ⟨_, _, hka⟩ | ⟨e, _, hka | ⟨hc0, hsp⟩⟩ | ⟨e, _, hc0⟩
       · rw [pendingFor_mark_false hpc hka] at hp'; cases hp'
       · rcases hka with hka | hka | hka | ⟨c1, hka⟩
         · rw [pendingFor_mark_false hpc (Or.inl hka)] at hp'; cases hp'
@@ -578,11 +607,11 @@ theorem stepN_inv_mark {s : St} (h : Inv s) {j : Nat} {n : Notifier} (hj : s.ntf
         · rw [pendingFor_kind_one hka] at hp'; cases hp'
         · rw [pendingFor_mark_false_onec hpc hka] at hp'; cases hp'
       · exact pending_lose (n := n) (n' := { n with marked := n.marked + 1, pc := nxt }) rfl rfl (Or.inl ⟨e,
-          (fun hka => by rcases hka with hka | hka <;> rw [hc0] at hka <;> cases hka),
-          (fun c' hc' => by rw [hc0] at hc'; cases hc'; exact hsp),
-          (fun c' hc' => by rw [hc0] at hc'; cases hc')⟩) c x hp'
+          (fun hka => by rcases hka with hka | hka <;> rw [hka] at hc0 <;> cases hc0),
+          (fun _ => hsp),
+          (fun c' hc' => by rw [hc'] at hc0; cases hc0)⟩) c x hp'
       · exact Or.inl (pending_keep (n := n) (n' := { n with marked := n.marked + 1, pc := nxt }) rfl rfl
-          (Or.inr (Or.inr (Or.inl ⟨Or.inl e, c0, hc0⟩))) c x hp')
+          (Or.inr (Or.inr (Or.inl ⟨Or.inl e, hc0⟩))) c x hp')
     rcases modS_get_cases hi with ⟨e, sl, h1, h2⟩ | ⟨e, h1⟩
     · subst e; subst h2
       exact dek_mono h hj hmono i sl h1 hp hc
